@@ -371,4 +371,84 @@ theorem U_idle_startHint (cfg : Cfg) (d : Disp (FullStH cfg)) (hp : d.pendingAux
         rw [hce] at this
         exact this
 
+theorem upost_err {α : Type} {cfg : Cfg} (d : Disp (FullStH cfg)) (e : Err) (h : HO e) :
+    UPost cfg ((d, .error e) : DRes (FullStH cfg) α) := by
+  refine ⟨fun a ha => ?_, fun e' he' => ?_⟩
+  · cases ha
+  · simp only [Except.error.injEq] at he'
+    rw [← he']; exact h
+
+/-- `flush_pending_captured_text` over the controller with the ghost, from a state whose controller state is `J2` -/
+theorem flushH_J2 (cfg : Cfg) (d : Disp (FullStH cfg)) (hJ : J2 cfg d.ctl.1.1) :
+    (∃ e, (d.flushPendingText (fullCtlH cfg)).2 = .error e ∧ e = .handler) ∨
+    ((d.flushPendingText (fullCtlH cfg)).2 = .ok () ∧ J2 cfg (d.flushPendingText (fullCtlH cfg)).1.ctl.1.1 ∧
+      (d.flushPendingText (fullCtlH cfg)).1.pendingAux = d.pendingAux ∧
+      (d.flushPendingText (fullCtlH cfg)).1.gotFlagsFromHint = d.gotFlagsFromHint) := by
+  have hh := Hom.hom_flushPendingText (hintCtl_hom (fullCtl cfg)) d
+  obtain ⟨tokF, ⟨tt, p, htokF⟩, f1, _, f3, f4⟩ := flushPendingText_full (cfg := cfg) (Hom.mapD Prod.fst d)
+  rw [← hh] at f1 f3 f4
+  have hkF : (CtlEv.other tokF).WellKinded := by rw [htokF]; trivial
+  obtain ⟨o1, o2⟩ := (J2_evInv cfg).other d.ctl.1.1 tokF d.textPending hJ hkF
+  cases h0 : (tokIf cfg d.textPending d.ctl.1.1 tokF).2 with
+  | some e =>
+    left
+    refine ⟨e, ?_, o2 e h0⟩
+    have : (tokIf cfg (Hom.mapD Prod.fst d).textPending (Hom.mapD Prod.fst d).ctl.1 tokF).2 = some e := h0
+    rw [this] at f4
+    exact f4
+  | none =>
+    right
+    have : (tokIf cfg (Hom.mapD Prod.fst d).textPending (Hom.mapD Prod.fst d).ctl.1 tokF).2 = none := h0
+    rw [this] at f4
+    refine ⟨f4, ?_, f3.pa, f3.gf⟩
+    have := o1 h0
+    have e1 : (d.flushPendingText (fullCtlH cfg)).1.ctl.1.1 = (tokIf cfg d.textPending d.ctl.1.1 tokF).1 := f1
+    rw [e1]; exact this
+
+/-- the end-tag hint from `idle`: the closing chunk of an open text node, then the first half of an end-tag event — or
+the whole event, if no token is wanted -/
+theorem U_idle_endHint (cfg : Cfg) (d : Disp (FullStH cfg)) (hp : d.pendingAux = false) (hg : d.gotFlagsFromHint = false)
+    (hJ : J2 cfg d.ctl.1.1) (n : LocalName) :
+    UPost cfg (Disp.endTagHint (fullCtlH cfg) n d) := by
+  unfold Disp.endTagHint
+  rcases flushH_J2 cfg d hJ with ⟨e, he, hh⟩ | ⟨hok, hJ1, hp1, hg1⟩
+  · rw [DRes.bind_err _ _ e he]
+    subst hh
+    exact upost_err _ _ (Or.inl rfl)
+  · rw [DRes.bind_ok _ _ () hok]
+    rw [hp] at hp1
+    rw [hg] at hg1
+    generalize (d.flushPendingText (fullCtlH cfg)).1 = d1 at hJ1 hp1 hg1
+    have h2 : ((fullCtlH cfg).endTag d1.ctl n).2 = (endTag d1.ctl.1.1 n).2 := rfl
+    have h1 : ((fullCtlH cfg).endTag d1.ctl n).1.1.1 = (endTag d1.ctl.1.1 n).1 := rfl
+    have h3 : ((fullCtlH cfg).endTag d1.ctl n).1.2 = some false := rfl
+    generalize (fullCtlH cfg).endTag d1.ctl n = r at h1 h2 h3
+    dsimp only
+    unfold Disp.applyHintFlags Disp.nextDirective
+    dsimp only
+    refine ⟨fun a _ => ?_, fun e he => by cases he⟩
+    generalize hfdef : (if Disp.shouldStopRemoving (fullCtlH cfg) { d1 with ctl := r.1 } = true then
+        ({ r.2 with nextEndTag := true } : Model.Flags) else r.2) = f
+    cases hfe : f.isEmpty with
+    | false =>
+      exact .endLex d1.ctl.1.1 n hJ1 (by show EqT _ r.1.1.1; rw [h1]; exact EqT.refl _)
+        rfl hp1 h3
+    | true =>
+      refine .idle hp1 rfl ?_
+      show J2 cfg r.1.1.1
+      rw [h1]
+      have hne : (endTag d1.ctl.1.1 n).2.nextEndTag = false := by
+        rw [← h2]
+        have := (isEmpty_nst hfe).2
+        rw [← hfdef] at this
+        split at this
+        · cases this
+        · exact this
+      obtain ⟨c1, _⟩ := (J2_evInv cfg).end_ d1.ctl.1.1 n [] [] ⟨0, 0⟩ hJ1
+      have hce : ctlStep cfg d1.ctl.1.1 (.end_ n (.endTag [] [] ⟨0, 0⟩)) = ((endTag d1.ctl.1.1 n).1, none) := by
+        simp only [ctlStep, tokIf, hne, Bool.false_eq_true, if_false]
+      have := c1 (by rw [hce])
+      rw [hce] at this
+      exact this
+
 end LolHtml.Thm.Full
